@@ -28,6 +28,11 @@ const FNAMES: [&str; 5] = ["ASCIIHexDecode", "ASCII85Decode", "RunLengthDecode",
 
 fn gen_case(s: &mut Src) -> Case {
     let v = gen_value(s, &GenOpts { depth: 2, refs: true, max_str: 10, wide_names: false }, 0);
+    // containers nested around the depth the reader supports (20): the limit must be the same for both storage forms
+    let v = match s.alt(12, &["v_ordinary_depth", "v_nested_18", "v_nested_19", "v_nested_20"]) {
+        0 => v,
+        k => { let depth = 17 + k; let mut x = V::Int(7); for i in 0..depth { x = if i % 2 == 0 { V::Arr(vec![x]) } else { V::Dict(vec![("K".into(), x)]) }; } x }
+    };
     // an object whose whole value is a reference to one of this document's own objects could form a reference loop
     // (an error by design); keep top-level references pointing outside the document
     let v = match v { V::Ref(n, g) if n < 64 => V::Ref(n + 1000, g), v => v };
